@@ -609,8 +609,10 @@ def corpus_patterns():
     """key -> (pattern module text, own payload text or None); deduplicated by pattern text."""
     from xdsl.dialects import pdl
     from xdsl.dialects.builtin import ModuleOp
-    from vt.corpus import chunks, parse_chunk
+    from xdsl.dialects.builtin import StringAttr
+    from vt.corpus import chunks, make_ctx, parse_chunk
     out, seen = {}, set()
+    strict_ctx = make_ctx(False)
     for rel, idx, text in chunks():
         if "pdl.pattern" not in text:
             continue
@@ -640,10 +642,27 @@ def corpus_patterns():
             except Exception:
                 continue
             ptxt = str(single)
-            if ptxt in seen:
-                continue
-            seen.add(ptxt)
-            out[f"{rel}#{idx}#{i}"] = (ptxt, own)
+            if ptxt not in seen:
+                seen.add(ptxt)
+                out[f"{rel}#{idx}#{i}"] = (ptxt, own)
+            # Most corpus patterns come from MLIR's tests and name ops that do not exist here
+            # ("foo.op"), so they can never match. A second variant of the same pattern with every
+            # unregistered op name replaced by "test.op" (matcher and rewrite alike) can.
+            renamed = False
+            for o in single.walk():
+                if isinstance(o, pdl.OperationOp) and o.opName is not None \
+                        and strict_ctx.get_optional_op(o.opName.data) is None:
+                    o.opName = StringAttr("test.op")
+                    renamed = True
+            if renamed:
+                try:
+                    single.verify()
+                except Exception:
+                    continue
+                rtxt = str(single)
+                if rtxt not in seen:
+                    seen.add(rtxt)
+                    out[f"{rel}#{idx}#{i}~test.op"] = (rtxt, None)
     return out
 
 
